@@ -44,8 +44,9 @@ func init() {
 // client.go touch: the real TopicManager, the real SessionManager on the package's in-memory
 // storage, the client table.  No listener, no pipelines.
 type c14Rig struct {
-	b     *Broker
-	msgID uint16
+	b       *Broker
+	msgID   uint16
+	foreign map[int64]bool // session-store hand-over goroutines that existed before this rig (c14_sessions_test.go)
 }
 
 func c14NewRig(cache int) *c14Rig {
@@ -59,9 +60,10 @@ func (rg *c14Rig) close() { rg.b.sessMgr.close() }
 // c14Conn is one client connection; every operation goes through the real handlers
 // processSubscribe / processUnsubscribe / closeAndDelSession of client.go.
 type c14Conn struct {
-	rg  *c14Rig
-	cid string
-	cl  *Client
+	rg         *c14Rig
+	cid        string
+	cl         *Client
+	persistent bool // connects with cleanSession=false (only in TestVerif_C14_Sessions)
 }
 
 // connect does what Broker.handleConn does after a successful CONNECT with CleanSession=1
@@ -211,6 +213,13 @@ type c14Exec struct {
 	cause    [][c14MaxClients]string // per topic, per client: op kind that first showed the discrepancy
 	cover    map[string]bool
 	lruFull  bool
+	// persistent-session histories (c14_sessions_test.go)
+	offline [c14MaxClients]bool              // persistent client currently without a connection: its own row is not judged
+	dropped [c14MaxClients]map[string]string // filter -> kind of the operation after which it was no longer live (never cleared)
+	fresh   [c14MaxClients]map[string]string // the same, since the client's last session restore
+	packets [c14MaxClients]map[string]bool   // kinds of mixed packets sent by the client since its last session restore
+	aborted bool                             // watchdog of the store barrier fired: the rest of the case is not run
+	viol0   int                              // violations recorded before this case
 }
 
 func c14NewExec(r *kit.Run, cache, nClients int) *c14Exec {
@@ -364,6 +373,15 @@ func (x *c14Exec) compareAll(op c14Op) {
 				seen++
 			}
 			st := &x.state[ti][c]
+			if x.offline[c] {
+				// a client with a stored (cleanSession=false) session and no connection: whether its
+				// subscriptions count as live is left open by the property; recorded, not judged
+				if routed {
+					x.r.Count("sess_offline_persistent_client_routed(not judged)", 1)
+				}
+				*st = c14StNA
+				continue
+			}
 			switch {
 			case mask != 0 && routed:
 				if q > 7 || mask&(1<<q) == 0 {
@@ -387,6 +405,8 @@ func (x *c14Exec) compareAll(op c14Op) {
 				if *st != c14StExtra {
 					if *st == c14StOK {
 						x.cause[ti][c] = "stale-after-" + x.kind
+					} else if why := x.restoreCause(ti, c); why != "" {
+						x.cause[ti][c] = why
 					} else {
 						x.cause[ti][c] = "no-matching-subscription:first-seen-after-" + x.kind + ":client-" + c14Wild(x.ref.filtersOf(c)...)
 					}
